@@ -10,6 +10,7 @@ fn main() {
         "component" => components::run(&mut ctx, &args[2..]),
         #[cfg(not(feature = "sym"))]
         "prove_component" => components::prove(&mut ctx, &args[2..]),
+        "verify" => protocol::run_verify(&mut ctx, &args[2..]),
         "extract" => gadgets::run(&mut ctx, &args[2..]),
         "extract_batch" => gadgets::run_batch(&mut ctx, &args[2..]),
         "prove_gadget" => gadgets::prove(&mut ctx, &args[2..]),
